@@ -196,6 +196,7 @@ def run_case(case):
     cov['observer_x_discarder_x_pos']['%s|%s|%s' % (kind, '+'.join(discards) or 'none', relpos)] = 1
     cnt = {'before': 0, 'after': 0}
     fin_calls = []
+    fin_stats = []
 
     def counting(name):
         def step(package):
@@ -227,9 +228,25 @@ def run_case(case):
             elif k == 'checkpoint':
                 out.append(d.checkpoint('obs', checkpoint_path='cp_' + env.tag))
             elif k == 'finalizer':
-                def cb():
-                    fin_calls.append((cnt['before'], cnt['after']))
-                out += [counting('before'), d.finalizer(cb), counting('after')]
+                if boot.rng(case['seed'], 'C05', 'finstats', case['idx']).random() < 0.5:
+                    # the documented callback form with a `stats` parameter: it is handed the stats as they are WHEN IT
+                    # FIRES (a dict registered with update_stats is filled by a row step while the rows pass)
+                    live = {'rows_seen': 0}
+
+                    def mk_seen(live):
+                        def seen(row):
+                            live['rows_seen'] += 1
+                        return seen
+                    seen = mk_seen(live)
+
+                    def cb(stats):
+                        fin_calls.append((cnt['before'], cnt['after']))
+                        fin_stats.append(dict(stats))
+                    out += [counting('before'), seen, d.update_stats(live), d.finalizer(cb), counting('after')]
+                else:
+                    def cb():
+                        fin_calls.append((cnt['before'], cnt['after']))
+                    out += [counting('before'), d.finalizer(cb), counting('after')]
             elif k == 'update_stats':
                 out.append(d.update_stats({'obs_stat': 42}))
             elif k == 'validate':
@@ -279,6 +296,7 @@ def run_case(case):
     st, env = steps(True, 'obs')
     cnt['before'] = cnt['after'] = 0
     del fin_calls[:]
+    del fin_stats[:]
     # what printer hands to tabulate (row lists already rendered to text) is captured through a module-level shim
     prm = boot.module('dataflows.processors.printer')
     real_tabulate = prm.tabulate
@@ -451,6 +469,9 @@ def run_case(case):
                 add('stats_missing', 'update_stats value not in returned stats %r' % with_obs.stats, 'update_stats/missing')
         elif k == 'finalizer':
             counters['finalizer_calls_checked'] += 1
+            if fin_stats and fin_calls and fin_stats[0].get('rows_seen') != fin_calls[0][0]:
+                add('finalizer_stats', 'the finalizer callback fired after %d rows had reached it and was handed stats with '
+                    'rows_seen=%r' % (fin_calls[0][0], fin_stats[0].get('rows_seen')), 'finalizer/stats_snapshot')
             if len(fin_calls) != 1:
                 add('finalizer_calls', 'finalizer fired %d times' % len(fin_calls), 'finalizer/calls')
             elif fin_calls[0] != (total, total) and not (
